@@ -104,7 +104,10 @@ fn trees() -> Vec<(String, CmdSpec)> {
     o.parser = Vp::Pv(vec![PvSpec { name: "one".into(), ..Default::default() }, PvSpec { name: "two".into(), ..Default::default() }, PvSpec { name: "hidval".into(), hide: true, ..Default::default() }]);
     root.args.push(o);
     root.args.push(ArgSpec::flag("s", Some('s'), None));
-    root.args.push(ArgSpec::flag("longonly", None, Some("longonly")));
+    let mut lo = ArgSpec::flag("longonly", None, Some("longonly"));
+    // a hidden alias that shares its first letter with another argument's long, not with its own
+    lo.aliases.push("oprivate".into());
+    root.args.push(lo);
     let mut build = CmdSpec::new("build");
     build.aliases.push("b".into());
     build.visible_aliases.push("bld".into());
@@ -160,6 +163,10 @@ fn prefixes(spec: &CmdSpec) -> Vec<(Vec<&'static str>, Vec<&'static str>)> {
             (vec!["bench"], vec!["bench"]),
             (vec!["-v", "build"], vec!["build"]),
             (vec!["bld"], vec!["build"]),
+            // hidden aliases of subcommands are accepted by the parser and lead to the same level
+            (vec!["b"], vec!["build"]),
+            (vec!["b", "deep"], vec!["build", "deep"]),
+            (vec!["i"], vec!["install"]),
             (vec!["build", "deep"], vec!["build", "deep"]),
             (vec!["--opt=one", "build", "-r", "deep"], vec!["build", "deep"]),
             // an option given with an attached empty value is complete: the next word starts afresh
